@@ -482,3 +482,78 @@ func ruleSetAtTarget(c *Ctx, r *Report) {
 	calls := CallsIn(info, f.Decl.Body, P("util")+".PathMatchesPrefix")
 	r.Check(len(calls) >= 2, "ytypes.retrieveNodeContainer:field-selection", c.Pos(f.Decl.Pos()), fmt.Sprintf("%d PathMatchesPrefix tests select the field (path and shadow-path tags)", len(calls)), "fields are no longer selected by util.PathMatchesPrefix on their path tags")
 }
+
+// ruleDeleteSites: R-DELETE-SITE (C12) — classification of the zeroing writes of retrieveNodeContainer.
+func ruleDeleteSites(c *Ctx, r *Report) {
+	r.Rule("R-DELETE-SITE", "retrieveNodeContainer zeroes a field only (a) where the delete path is exhausted at that field, (b) after a descent, when the child it descended into has become empty, or (c) for an ordered-map field when the path ends at its compressed-out surrounding container; any other field that merely shares a path prefix is left alone", 4)
+	f := c.MustFunc(r, "ytypes", "retrieveNodeContainer")
+	if f == nil {
+		return
+	}
+	info := f.Info()
+	n := 0
+	for _, call := range CallsIn(info, f.Decl.Body, "reflect.Value.Set") {
+		if len(call.Args) != 1 || !IsCall(info, call.Args[0], "reflect.Zero") {
+			continue
+		}
+		n++
+		var del, exhausted, emptied, partial, om bool
+		for _, ft := range c.FactsAt(f, call, true) {
+			switch ft.Kind {
+			case "cond":
+				if !ft.Pos {
+					continue
+				}
+				e := ast.Unparen(ft.Cond)
+				if isArgsField(info, e, "delete") {
+					del = true
+				}
+				s := types.ExprString(e)
+				if be, ok := e.(*ast.BinaryExpr); ok && be.Op == token.EQL {
+					if strings.Contains(s, "len(path.Elem)") {
+						exhausted = true
+					}
+					if strings.HasSuffix(types.ExprString(be.X), ".Len()") {
+						if v, ok := ConstOf(info, be.Y); ok && v == "0" {
+							emptied = true
+						}
+					}
+				}
+				if call2, ok := e.(*ast.CallExpr); ok {
+					fn := FullName(Callee(info, call2))
+					if fn == "reflect.Value.IsZero" {
+						emptied = true
+					}
+					if strings.HasSuffix(fn, "util.PathPartiallyMatchesPrefix") {
+						partial = true
+					}
+				}
+				if id, ok := e.(*ast.Ident); ok {
+					obj := info.ObjectOf(id)
+					ast.Inspect(f.Decl.Body, func(m ast.Node) bool {
+						if as, ok := m.(*ast.AssignStmt); ok && len(as.Lhs) == 2 && len(as.Rhs) == 1 && ObjOf(info, as.Lhs[1]) == obj {
+							if ta, ok := as.Rhs[0].(*ast.TypeAssertExpr); ok && strings.HasSuffix(typeName(info, ta.Type), "GoOrderedMap") {
+								om = true
+							}
+						}
+						return true
+					})
+				}
+			}
+		}
+		class := ""
+		switch {
+		case del && exhausted:
+			class = "path exhausted at the field"
+		case del && emptied:
+			class = "child emptied by the delete below it"
+		case del && partial && om:
+			class = "ordered map below a compressed-out container"
+		}
+		r.Check(class != "", fmt.Sprintf("ytypes.retrieveNodeContainer:zeroing#%d", n), c.Pos(call.Pos()), class,
+			"retrieveNodeContainer zeroes a field that is neither the delete target, nor a child emptied by the delete, nor an ordered map below a compressed-out container: a delete whose path merely shares a prefix with the field's path removes (only the first such) field and reports success")
+	}
+	if n == 0 {
+		r.Bad("ytypes.retrieveNodeContainer:zeroing", c.Pos(f.Decl.Pos()), "retrieveNodeContainer no longer zeroes deleted fields")
+	}
+}
